@@ -376,7 +376,9 @@ class World:
         cands = [s for s in wlist if s.kind == "conn"]
         blocked = getattr(self, "round_blocked", set())
         writable = [s for s in cands if s.idx not in blocked]
-        net.log("MGR_WPROBE", net.round, tuple(sorted(s.idx for s in writable)), tuple(s.idx for s in cands))
+        sq = net.log("MGR_WPROBE", net.round, tuple(sorted(s.idx for s in writable)), tuple(s.idx for s in cands))
+        net.probe_rounds.add(net.round)
+        net.probe_seq.setdefault(net.round, sq)
         return [], writable, []
 
     def on_shuffle(self, lst):
